@@ -13,7 +13,7 @@ from .c04 import HS_PLAIN, HS_DEFLATE, HS_LEN
 LEVEL = 'exploration'
 TECHNIQUE = 'runtime monitoring: exhaustive product of the real UTF-8 validator with an ABNF-generated automaton; end-to-end verdict and fail-fast read-offset oracle'
 BUDGET_S = {'quick': 30, 'thorough': 240}
-REQUIRED = {'all': ['dfa.transitions_compared', 'e2e.verdicts_compared', 'e2e.failfast_checked',
+REQUIRED = {'all': ['e2e.large_fragments_one_per_read', 'dfa.transitions_compared', 'e2e.verdicts_compared', 'e2e.failfast_checked',
                     'e2e.with_control_between_fragments']}
 RULE = ('(a) exhaustive product: BFS from Utf8Validator.reset() drives the real validate() one byte at a '
         'time, discovers every reachable live state, and compares verdict and successor for state x 256 '
@@ -100,6 +100,18 @@ def cases(tier, seed, i, n):
     def allcases():
         yield dict(kind='dfa')
         yield gen.mark('validator reachable states x 256 next bytes (+ every 2-call split of every witness)')
+        # long texts whose fragments each arrive in a read of their own (a fragment of 32..64 KiB fits the receive buffer
+        # exactly once: whatever is kept of it must survive the next read)
+        unit = 'priçe 5 € 😀 '.encode('utf-8')
+        for total, cuts in ((100000, [40001]), (140000, [33000, 73000]), (70000, [65000]), (98304, [32768, 65536]), (50000, [49999])):
+            body = (unit * (total // len(unit) + 1))[:total]
+            while not refutf8.valid(body):
+                body = body[:-1]
+            for bad in (None, len(body) - 7, cuts[0] + 5):
+                pl = body if bad is None else body[:bad] + b'\xff' + body[bad + 1:]
+                for ctrl in (None, 'ping'):
+                    yield dict(kind='e2e', p=pl, cuts=cuts, ctrl=ctrl, seg='perframe', z=False)
+                yield dict(kind='e2e', p=pl, cuts=cuts, ctrl=None, seg='coalesced', z=False)
         rnd = random.Random(seed * 131 + 9)
         for pi, p in enumerate(all_payloads(tier, seed)):
             L = len(p)
@@ -262,6 +274,10 @@ def run_e2e(case, acc):
     full = stream + tail
     if case['seg'] == 'bytewise':
         scuts = [hl + c for c in range(0, len(full) + 1)]
+    elif case['seg'] == 'perframe':
+        # every fragment (with the control frame in front of it, if any) is a TCP segment of its own
+        scuts = [hl] + [hl + len(pre_frame) + after[c - 1] for c in cuts if 0 < c <= len(after)] + [hl + len(stream)]
+        acc.count2('e2e', 'large_fragments_one_per_read')
     else:
         scuts = None
     w = H.World(H.hs_server([('raw', full), ('eof',)], HS_DEFLATE if z else HS_PLAIN), cuts=scuts)
